@@ -14,6 +14,10 @@ A cell is a dict
   order   : before | during                            (event before the op starts / while it is blocked)
   deadline: bool
   status  : none | h503 | tonly7 | trailers5 | trailers0   (what the server had already sent for this call)
+  goaway  : '<error code>/<last_stream_id: zero | highest | lower | max>/<debug data 0|1>'  (event=goaway;
+            default '0/highest/0'; lower = below the in-flight stream of the call -- a finished warm-up call
+            has used stream 1 --, max = 2**31-1, the "shutdown notice" of a graceful shutdown)
+  rst_code: error code of the RST_STREAM (event=rst; default 8)
   variant : base | implicit | after_headers            (implicit: send_message opens the stream itself;
                                                         after_headers: initial metadata already received)
   holder  : idle | blocked                             (reason=slot: what the call holding the slot is doing)
@@ -125,6 +129,27 @@ def send_status(peer, sid, status, headers_sent=False):
         peer.headers(sid, [('grpc-status', status[8:]), ('grpc-message', 'm')], end_stream=True)
 
 
+def send_goaway(peer, spec, sid):
+    code, last, data = (spec or '0/highest/0').split('/')
+    last_id = {'zero': 0, 'highest': None, 'max': 2 ** 31 - 1,
+               'lower': max(0, (sid or 1) - 2)}[last]
+    peer.h2.close_connection(error_code=int(code), additional_data=b'debug data' if data == '1' else None,
+                             last_stream_id=last_id)
+    peer.flush()
+
+
+def warm_up(loop, ce):
+    """a finished call, so that the next stream id is 3 and a GOAWAY can name a lower one"""
+    async def w():
+        s = ce.channel.request('/v.S/W', Cardinality.STREAM_STREAM, bytes, bytes)
+        async with s:
+            await s.send_request()
+            await s.cancel()
+    t = loop.create_task(w())
+    loop.run_quiet(1.0)
+    return t.done()
+
+
 def run_cell(cell):
     """Returns the observation dict of one cell (strings / numbers / bools only)."""
     op, reason, event, order = cell['op'], cell['reason'], cell['event'], cell['order']
@@ -201,6 +226,10 @@ def run_cell(cell):
             obs['setup'] = 'connect-stuck'
             return obs
         proto = ce.proto
+        if event == 'goaway' and '/lower/' in (cell.get('goaway') or ''):
+            if not warm_up(loop, ce):
+                obs['setup'] = 'warm-up-stuck'
+                return obs
         if reason == 'slot' and opens_in_op:
             ce.peer.settings({SettingCodes.MAX_CONCURRENT_STREAMS: 1})
         if reason == 'window':
@@ -247,7 +276,7 @@ def run_cell(cell):
                 if s is None:
                     return 'no-stream-for-rst'
                 try:
-                    ce.peer.reset(s, 8)
+                    ce.peer.reset(s, cell.get('rst_code', 8))
                 except Exception:
                     return 'rst-infeasible'          # both sides ended the stream: the peer's h2 refuses
             elif event == 'serr':
@@ -258,7 +287,7 @@ def run_cell(cell):
                     return 'rst-infeasible'          # closed on both sides: h2 ignores frames for it
                 stream_violation(ce.peer, s, cell.get('violation', 'window'))
             elif event == 'goaway':
-                ce.peer.goaway()
+                send_goaway(ce.peer, cell.get('goaway'), stream._stream.id if stream._send_request_done else None)
             elif event == 'garbage':
                 ce.peer.raw(GARBAGE)
             elif event == 'lost':
@@ -341,6 +370,10 @@ def run_cell(cell):
 
 # ---- several operations of one call at once, each its own task ------------------------------------
 
+def ev_is_lower_goaway(spec):
+    return spec['event'] == 'goaway' and '/lower/' in (spec.get('goaway') or '')
+
+
 def run_multi(spec):
     """spec = {'ops': [op, ...] started concurrently as tasks of one call (each blocked for its own reason:
     sm on flow control, en/ca on a paused transport, ri/rm/rt on the silent peer), 'paused': bool,
@@ -376,6 +409,8 @@ def run_multi(spec):
 
         loop.create_task(ce.channel.__connect__())
         loop.run_quiet(1.0)
+        if ev_is_lower_goaway(spec):
+            warm_up(loop, ce)
         if spec.get('window'):
             ce.peer.settings({SettingCodes.INITIAL_WINDOW_SIZE: 0})
             loop.run_quiet(1.0)
@@ -396,14 +431,14 @@ def run_multi(spec):
         ev = spec['event']
         if ev == 'rst':
             try:
-                ce.peer.reset(stream._stream.id, 8)
+                ce.peer.reset(stream._stream.id, spec.get('rst_code', 8))
             except Exception:
                 out['setup'] = 'rst-infeasible'
                 return out
         elif ev == 'serr':
             stream_violation(ce.peer, stream._stream.id, 'window')
         elif ev == 'goaway':
-            ce.peer.goaway()
+            send_goaway(ce.peer, spec.get('goaway'), stream._stream.id)
         elif ev == 'garbage':
             ce.peer.raw(GARBAGE)
         elif ev == 'lost':
